@@ -274,4 +274,54 @@ func (c *Ctx) diffRule(fname string) {
 	})
 	c.check(okShape, "diff-result", fname+"#nil-iff-zero", c.P.Pos(d.fd.Pos()),
 		"a non-nil diff is returned exactly under DiffCount > 0", "the `DiffCount > 0 → return the diff` shape was not found: self-diff may be reported as a difference or differences dropped")
+	// … and "no difference" is decided by the stanzas only: an early `return nil` is admitted for
+	// the same object (pointer identity) or an absent operand, never on the word of another notion
+	// of equality (Equal, checksums, sizes) — those can call two different nodes the same
+	k := 0
+	ast.Inspect(d.fd.Body, func(n ast.Node) bool {
+		rs, ok := n.(*ast.ReturnStmt)
+		if !ok || len(rs.Results) != 1 || !isNilIdent(d.pkg, rs.Results[0]) {
+			return true
+		}
+		chain := enclosing(d.fd.Body, rs)
+		for i, en := range chain {
+			ifs, isIf := en.(*ast.IfStmt)
+			if !isIf || i+1 >= len(chain) || chain[i+1] != ast.Node(ifs.Body) {
+				continue
+			}
+			k++
+			okCond := true
+			var walk func(e ast.Expr)
+			walk = func(e ast.Expr) {
+				switch x := e.(type) {
+				case *ast.ParenExpr:
+					walk(x.X)
+					return
+				case *ast.BinaryExpr:
+					if x.Op == token.LOR || x.Op == token.LAND {
+						walk(x.X)
+						walk(x.Y)
+						return
+					}
+					if part, _ := lhsKind(x.X); part == "DiffCount" {
+						return
+					}
+					if x.Op == token.EQL {
+						lo, ro := objOf(d.pkg, x.X), objOf(d.pkg, x.Y)
+						if isNilIdent(d.pkg, x.Y) && lo != nil && (lo == recv || lo == par) {
+							return
+						}
+						if lo != nil && ro != nil && ((lo == recv && ro == par) || (lo == par && ro == recv)) {
+							return
+						}
+					}
+				}
+				okCond = false
+			}
+			walk(ifs.Cond)
+			c.check(okCond, "diff-result", fmt.Sprintf("%s#early-nil@%d", fname, k), c.P.Pos(ifs.Pos()), "early nil only for the same object or an absent operand",
+				fmt.Sprintf("Diff returns nil early under `%s`: whether two nodes differ is then decided by something other than the per-field stanzas, and every pair that test wrongly calls equal has its differences dropped", types.ExprString(ifs.Cond)))
+		}
+		return true
+	})
 }
